@@ -223,14 +223,16 @@ InfoFits(q, s, g, c) == Len(InfoText(s)) <= InfoRoom(q, s, g, c)
 InlineInfo(c) == c.info \in {"inline", "inline-right"}
 ShowsPart(row, q, g, c) ==
     LET p == PromptPart(c, g) IN
-    IF InlineInfo(c) THEN IsPrefix(p \o q \o <<" ">>, row \o <<" ">>) ELSE row = RTrim(p \o q)
-ShowsQuery(row, s, g, c) ==
-    IF QueryFits(s, g, c) THEN ShowsPart(row, s.input, g, c)
+    row = RTrim(p \o q) \/ (InlineInfo(c) /\ IsPrefix(p \o q \o <<" ">>, row))        \* the info may follow
+(* scrolled: an earlier query was longer than the line; the prompt may then stay scrolled horizontally             *)
+(* (CODE-DERIVED: updatePromptOffset keeps its offset within [0, cx/2] once it has become positive)                *)
+ShowsQuery(row, s, g, c, scrolled) ==
+    IF QueryFits(s, g, c) /\ ~scrolled THEN ShowsPart(row, s.input, g, c)
     ELSE \E i \in 1..(Len(s.input) + 1) : \E j \in (i - 1)..Len(s.input) :
             /\ i - 1 <= s.cx /\ s.cx <= j
-            /\ 4 * (j - i + 1) >= PromptRoom(g, c) - 3                 \* a real part of it, not a token one
+            /\ 2 * (j - i + 1) >= Min2(Len(s.input), (PromptRoom(g, c) - 3) \div 2)    \* a real part, not a token one
             /\ ShowsPart(row, Sub(s.input, i, j), g, c)
-ClaimPrompt(rows, s, g, c) == \A r \in RowsOf("prompt", g, c) : ShowsQuery(rows[r], s, g, c)
+ClaimPrompt(rows, s, g, c, scrolled) == \A r \in RowsOf("prompt", g, c) : ShowsQuery(rows[r], s, g, c, scrolled)
 
 (* "the info line shows matched/total (and selected) counts" (wherever --info puts it, when there is room) *)
 InfoShown(s) == Digits(N(s)) \o <<"/">> \o Digits(Max2(N(s), s.count))
@@ -271,18 +273,19 @@ ClaimHeader(rows, g, c) ==
     /\ \A r \in RowsOf("hline", g, c) : HeaderShown(rows[r], c.hlines[SlotAt(r - 1, g, c).ix], g, c)
 ClaimBlank(rows, g, c) == \A r \in RowsOf("blank", g, c) : rows[r] = <<>>
 
-Claims(rows, s, g, c) ==
+ClaimsS(rows, s, g, c, scrolled) ==
     /\ ClaimHeight(rows, g)
     /\ ClaimWidth(rows, g)
-    /\ ClaimPrompt(rows, s, g, c)
+    /\ ClaimPrompt(rows, s, g, c, scrolled)
     /\ ClaimInfo(rows, s, g, c)
     /\ ClaimList(rows, s, g, c)
     /\ ClaimHeader(rows, g, c)
     /\ ClaimBlank(rows, g, c)
-FailedClaims(rows, s, g, c) ==
+Claims(rows, s, g, c) == ClaimsS(rows, s, g, c, FALSE)
+FailedClaims(rows, s, g, c, scrolled) ==
     IF ~ClaimHeight(rows, g) THEN "height"
     ELSE (IF ClaimWidth(rows, g) THEN "" ELSE "width ")
-         \o (IF ClaimPrompt(rows, s, g, c) THEN "" ELSE "prompt ")
+         \o (IF ClaimPrompt(rows, s, g, c, scrolled) THEN "" ELSE "prompt ")
          \o (IF ClaimInfo(rows, s, g, c) THEN "" ELSE "info ")
          \o (IF ClaimList(rows, s, g, c) THEN "" ELSE "list ")
          \o (IF ClaimHeader(rows, g, c) THEN "" ELSE "header ")
